@@ -95,6 +95,14 @@ CLAIMED['C04'] = dict(
     technique='bounded stand-in only: exhaustive short operation sequences on the real RIB with an RFC reference decoder as peer model (contract-based proof of the RIB invariant not built yet)',
 )
 
+CLAIMED['C17'] = dict(
+    category='proof',
+    text='FAILURE HALF (proof): contracts on the real Configuration._reload and Configuration.reload with the neighbors dictionary as an identity-carrying object: a reload that does not return True leaves self.neighbors identical on every exit -- missing file, set_text/set_file false, clean syntax error, and any exception raised by the parser callees (restored by the exception arms of reload()); a committed reload is never undone. Discharged by z3; counter-models name the failing exit. DIFFERENCE HALF (bounded only): the real Configuration + Reactor.reload + Peer + RIB objects, with the two RIB-handling statement groups of Peer._main extracted from its source at run time and executed unmodified: 6x6 route sets (attribute-only changes included) x changed/unchanged neighbor parameters x session up/down x API route, plus family-added pairs; after the reload the peer holds exactly the new configuration plus the API routes. Failed reloads with the fault inside the changed block, in a later block, missing file, parser exception: neighbors, peers, sessions and peer tables unchanged.',
+    note='replace_reload / replace_restart / Reactor.reload / _commit_reload have NO deductive obligations: that half is bounded. One genuine defect is a recorded known finding (region C17-parse-time-rib-effects: a fault in a later neighbor block after an earlier changed block completed). Assumed: _link()/validate() do not raise after the commit. Only the first neighbor carries route changes in the two-neighbor cases.',
+    ref='DESIGN.md §6 C17, §11.7-11.8',
+    technique=PYVC + ' on Configuration._reload/reload (identity of the neighbors object, exceptional exits); bounded reload pairs on the real Reactor with mechanically extracted Peer._main statements',
+)
+
 NOT_YET = 'check not built yet in this session (planned in DESIGN.md §6); not claimed until its obligations are discharged'
 NA = {}
 
